@@ -26,3 +26,18 @@ def matchers_for(prop_id):
         if fn is not None:
             out.append((kf.get('id'), fn))
     return out
+
+
+def _arc_lambda(spec):
+    from .ref import arc_ref
+    return arc_ref.lam(spec[1], spec[2][0], spec[2][1], spec[3], spec[6])
+
+
+@matcher('arc_chord_tiny_vs_radius')
+def _kf_arc_tiny_chord(case, bucket, message, details, config):
+    """C04: radii more than ~1e6 times the chord (Lambda < 1e-12): the angle between the unit-circle images of start
+    and end is below acos resolution, delta collapses to 0 and becomes 0/+-360."""
+    if not bucket.startswith('C04/'):
+        return False
+    spec = case.get('spec')
+    return bool(spec) and spec[0] == 'A' and 0 < _arc_lambda(spec) < 1e-12
